@@ -71,28 +71,30 @@ Must(dd, S, I) == IF MustServe(dd, S, I) THEN "serve" ELSE IF MustReject(dd, S, 
 UInit == /\ case \in Cases
          /\ MapInit(case.desc, InputsFor(case.I))
          /\ tid = 0 /\ l = 0
-UNext == UNCHANGED allvars
+UNext == l = 0 /\ l' = 1 /\ UNCHANGED <<mvars, case, tid>>      \* one step, so that the laws are evaluated by all workers
+Chk(law) == l = 1 => law
 USpec == UInit /\ [][UNext]_allvars
 
-InvLeast        == LawLeast(case.desc, case.S, case.I)
-InvCutOff       == LawCutOff(case.desc, case.S, case.I)
-InvComputableSources == LawComputableSources(case.desc, case.S, case.I)
-InvComputableDefined == LawComputableDefined(case.desc, case.S, case.I)
+InvLeast        == Chk(LawLeast(case.desc, case.S, case.I))
+InvCutOff       == Chk(LawCutOff(case.desc, case.S, case.I))
+InvComputableSources == Chk(LawComputableSources(case.desc, case.S, case.I))
+InvComputableDefined == Chk(LawComputableDefined(case.desc, case.S, case.I))
 (* Computable <=> the denotation is defined: the call denotation of every requested output contains no missing      *)
 (* argument, and the map request over the needed functions is valid                                                  *)
-InvDenotationDefined ==
+InvDenotationDefined == Chk(
     /\ Computable(case.desc, case.S, case.I) <=> \A o \in case.S : ~HasMissing(Eval(case.desc, InputsFor(case.I), o))
-    /\ Computable(case.desc, case.S, case.I) <=> ValidSubRequest(case.desc, inp, NeededSet(case.desc, case.S, case.I))
+    /\ Computable(case.desc, case.S, case.I) <=> ValidSubRequest(case.desc, inp, NeededSet(case.desc, case.S, case.I)))
 (* the map denotation over the needed functions = the call denotation (no MapSpecs in this universe) *)
-InvMapEqualsCall ==
+InvMapEqualsCall == Chk(
     Computable(case.desc, case.S, case.I) =>
-        \A o \in case.S : MapDenoteF(case.desc, inp, NeededSet(case.desc, case.S, case.I))[o] = Eval(case.desc, inp, o)
-InvSubstitution == LawSubstitution(case.desc, case.S, inp, FullInputs(case.desc, case.I))
+        LET den0 == MapDenoteF(case.desc, inp, NeededSet(case.desc, case.S, case.I)) IN
+        \A o \in case.S : den0[o] = Eval(case.desc, inp, o))
+InvSubstitution == Chk(LawSubstitution(case.desc, case.S, inp, FullInputs(case.desc, case.I)))
 (* the three classes partition the well-formed requests; a request over all root names is computable *)
-InvClasses == /\ WellFormedRequest(case.desc, case.S, case.I)
-              /\ ~(MustServe(case.desc, case.S, case.I) /\ MustReject(case.desc, case.S, case.I))
-              /\ RootNames(case.desc) \subseteq case.I => Computable(case.desc, case.S, case.I)
-Emit == PrintT(<<"CASE", ToJson([desc |-> case.desc, S |-> SetToSeq(case.S), I |-> SetToSeq(case.I), inputs |-> inp,
+InvClasses == Chk(/\ WellFormedRequest(case.desc, case.S, case.I)
+                  /\ ~(MustServe(case.desc, case.S, case.I) /\ MustReject(case.desc, case.S, case.I))
+                  /\ RootNames(case.desc) \subseteq case.I => Computable(case.desc, case.S, case.I))
+Emit == l = 0 \/ PrintT(<<"CASE", ToJson([desc |-> case.desc, S |-> SetToSeq(case.S), I |-> SetToSeq(case.I), inputs |-> inp,
                                  computable |-> Computable(case.desc, case.S, case.I),
                                  needed |-> SetToSeq(FNames(case.desc, NeededSet(case.desc, case.S, case.I))),
                                  missing |-> SetToSeq(MissingNames(case.desc, case.S, case.I)),
